@@ -1248,55 +1248,22 @@ struct ical_parser_s {
 
 	size_t six;
 	char stash[1024U];
+
+	/* line assembly state, survives from one buffer to the next */
+	enum {
+		LST_TXT,
+		/* seen a backslash */
+		LST_ESC,
+		/* seen a newline, could be a folded line though */
+		LST_EOL,
+	} lst;
+	/* line too long for the stash */
+	unsigned int ovfl:1;
+	/* no more buffers are to come */
+	unsigned int fin:1;
 };
 
 #define ICAL_EOP	((struct ical_vevent_s*)0x1U)
-
-static size_t
-esccpy(char *restrict tgt, size_t tz, const char *src, size_t sz)
-{
-	size_t ti = 0U;
-
-	for (size_t si = 0U; si < sz; si++) {
-		switch ((tgt[ti] = src[si])) {
-		case '\r':
-			break;
-		case '\n':
-			/* overread along with the next space */
-			si++;
-			break;
-		case '\\':
-			/* ah, one of them escape sequences */
-			switch (src[si]) {
-			case 'n':
-			case 'N':
-				tgt[ti++] = '\n';
-				si++;
-				break;
-			case '"':
-			case ';':
-			case ',':
-			case '\\':
-			default:
-				tgt[ti++] = src[si++];
-				break;
-			}
-			break;
-		case '"':
-			/* grrr, these need escaping too innit? */
-		default:
-			ti++;
-			break;
-		}
-		/* not sure what to do with long lines */
-		if (UNLIKELY(ti >= tz)) {
-			/* ignore them */
-			return 0U;
-		}
-	}
-	tgt[ti] = '\0';
-	return ti;
-}
 
 static int
 _ical_init_push(const char *buf, size_t bsz)
@@ -1525,80 +1492,121 @@ out:
 	return res;
 }
 
+static inline void
+_ical_stash(struct ical_parser_s p[static 1U], char c)
+{
+	if (UNLIKELY(p->six + 1U >= sizeof(p->stash))) {
+		/* not sure what to do with long lines, ignore them */
+		p->ovfl = 1U;
+		return;
+	}
+	p->stash[p->six++] = c;
+	return;
+}
+
+static struct ical_vevent_s*
+_ical_line(struct ical_parser_s p[static 1U])
+{
+/* the stash holds a complete, unfolded and unescaped line now */
+	if (UNLIKELY(p->ovfl)) {
+		p->ovfl = 0U;
+		p->six = 0U;
+		return NULL;
+	} else if (!p->six) {
+		return NULL;
+	}
+	p->stash[p->six] = '\0';
+	return _ical_proc(p);
+}
+
 static struct ical_vevent_s*
 _ical_pull(struct ical_parser_s p[static 1U])
 {
-/* pull-version of read_ical */
-	struct ical_vevent_s *res = NULL;
-	const char *eol;
+/* pull-version of read_ical
+ * lines are assembled byte-wise in the stash so that it makes no
+ * difference how the input is cut into buffers:  CRs are dropped,
+ * a newline followed by a blank is a fold and is dropped along with
+ * the blank, backslash escapes are resolved */
+	struct ical_vevent_s *res;
 
-#define BP	(p->buf + p->bix)
-#define BZ	(p->bsz - p->bix)
-#define BI	(p->bix)
-	/* before delving into the current buffer check the stash,
-	 * we might have put a multiline there and only now it
-	 * becomes apparent that it's indeed a valid line when
-	 * examinging the new bytes in the parser buffer */
-	if (p->six && p->stash[p->six] == '\001') {
-		/* go back to 0 termination */
-		p->stash[p->six] = '\0';
-		/* now check if the stuff in the buffer happens
-		 * to start with a single allowed whitespace in
-		 * which case we enter the normal chop_more
-		 * procedure */
-		if (LIKELY(*BP != ' ' && *BP != '\t')) {
-			goto proc;
-		}
-		/* just get on with it */
-	}
-chop_more:
-	/* chop _p->buf into lines (possibly multilines) */
-	for (const char *tmp = BP, *const ep = BP + BZ;
-	     (eol = memchr(tmp, '\n', ep - tmp)) != NULL &&
-		     ++eol < ep && (*eol == ' ' || *eol == '\t'); tmp = eol);
-	if (UNLIKELY((eol == NULL || eol >= BP + BZ) &&
-		     BZ >= sizeof(p->stash) - p->six)) {
-		/* we must have stopped mid-stream at the end of the buffer
-		 * however, our stash space is too small to hold the contents
-		 * we'll just fuck off and hope nobody will notice */
-		p->six = 0U;
-	} else if (UNLIKELY(eol == NULL || eol >= BP + BZ)) {
-		/* copy what we've got to the stash for small buffers */
-		char *restrict sp = p->stash + p->six;
-		size_t sz = sizeof(p->stash) - p->six;
+	while (p->bix < p->bsz) {
+		const char c = p->buf[p->bix];
 
-		p->six += esccpy(sp, sz, BP, BZ);
-		if (eol != NULL) {
-			/* means at least we've seen a \n up there
-			 * leave a mark in the stash buffer so the
-			 * pre-examination in the next iteration can
-			 * rule whether this was a multi-line or in
-			 * fact a complete line */
-			p->stash[p->six] = '\001';
-		}
-	} else {
-		const char *bp = BP;
-		const size_t llen = eol - bp;
-		char *restrict sp = p->stash + p->six;
-		size_t slen = sizeof(p->stash) - p->six;
+		switch (p->lst) {
+		case LST_EOL:
+			p->lst = LST_TXT;
+			if (c == ' ' || c == '\t') {
+				/* folded line, carry on */
+				p->bix++;
+				break;
+			}
+			/* the line in the stash is complete
+			 * C starts the next line and is looked at again */
+			if ((res = _ical_line(p)) != NULL) {
+				return res;
+			}
+			break;
 
-		/* ... pretend we've consumed it all */
-		BI += llen;
+		case LST_ESC:
+			p->lst = LST_TXT;
+			switch (c) {
+			case 'n':
+			case 'N':
+				_ical_stash(p, '\n');
+				break;
+			case '\r':
+			case '\n':
+				/* stray backslash at the end of the line
+				 * have C looked at again */
+				_ical_stash(p, '\\');
+				continue;
+			default:
+				_ical_stash(p, c);
+				break;
+			}
+			p->bix++;
+			break;
 
-		/* copy to stash and unescape */
-		slen = esccpy(sp, slen, bp, llen);
-		/* store new stash pointer */
-		p->six += slen;
-
-	proc:
-		if (p->six && (res = _ical_proc(p)) == NULL) {
-			goto chop_more;
+		default:
+		case LST_TXT:
+			switch (c) {
+			case '\r':
+				break;
+			case '\n':
+				p->lst = LST_EOL;
+				break;
+			case '\\':
+				p->lst = LST_ESC;
+				break;
+			default:
+				_ical_stash(p, c);
+				break;
+			}
+			p->bix++;
+			break;
 		}
 	}
-#undef BP
-#undef BZ
-#undef BI
-	return res;
+	if (UNLIKELY(p->fin && (p->lst == LST_EOL || p->six))) {
+		/* nothing will follow, so the last line is complete */
+		p->lst = LST_TXT;
+		return _ical_line(p);
+	}
+	return NULL;
+}
+
+static void
+_ical_rset(struct ical_parser_s p[static 1U])
+{
+/* get ready for the next calendar in the same input,
+ * the buffer and the line assembly state are kept */
+	if (UNLIKELY(p->st == ST_VTOD)) {
+		free_ical_vevent(&p->ve);
+	}
+	free_ical_vevent(&p->globve);
+	memset(&p->ve, 0, sizeof(p->ve));
+	memset(&p->globve, 0, sizeof(p->globve));
+	p->st = ST_UNK;
+	return;
 }
 
 static void
@@ -2828,6 +2836,7 @@ echs_evical_pull(ical_parser_t p[static 1U])
 
 	/* just let _ical_pull do the yakka and we split everything
 	 * into evical vevents and evrruls */
+again:
 	if (UNLIKELY(*p == NULL)) {
 		/* how brave */
 		;
@@ -2835,10 +2844,10 @@ echs_evical_pull(ical_parser_t p[static 1U])
 		/* we need more data, or we've reached the state finished */
 		;
 	} else if (UNLIKELY(ve == ICAL_EOP)) {
-		/* oh, do the big cleaning up */
-		_ical_fini(*p);
-		free(*p);
-		*p = NULL;
+		/* that calendar is finished, rinse and carry on with
+		 * what's left in the buffer, might be another calendar */
+		_ical_rset(*p);
+		goto again;
 	} else {
 		struct ical_parser_s *_p = *p;
 
@@ -2881,8 +2890,13 @@ echs_evical_pull(ical_parser_t p[static 1U])
 echs_instruc_t
 echs_evical_last_pull(ical_parser_t p[static 1U])
 {
-	echs_instruc_t res = echs_evical_pull(p);
+	echs_instruc_t res;
 
+	if (LIKELY(*p != NULL)) {
+		/* so the last line counts even without a newline */
+		((struct ical_parser_s*)*p)->fin = 1U;
+	}
+	res = echs_evical_pull(p);
 	if (LIKELY(*p != NULL)) {
 		_ical_fini(*p);
 		free(*p);
